@@ -3,7 +3,7 @@ import json, re
 from common import *
 import impl, l0, gens
 
-THMS = ["C13_statement_list", "C13_none_single_list", "C13_empty_block_skipped"]
+THMS = ["C13_statement_list", "C13_none_single_list", "C13_empty_block_skipped", "C13_directive_inside_literal_refuted", "C13_custom_delimiter_mid_line_refuted", "C13_custom_delimiter_inside_literal_refuted"]
 HEADER = ("From Coq Require Import List NArith Bool.\nFrom MoSql Require Import Model.Lit Model.Script.\nImport ListNotations.\nOpen Scope N_scope.\n"
           "Definition seqb (x y : list N) : bool := if list_eq_dec N.eq_dec x y then true else false.\n"
           "Fixpoint lseqb (x y : list (list N)) : bool := match x, y with [], [] => true | a :: x', b :: y' => seqb a b && lseqb x' y' | _, _ => false end.\n"
